@@ -486,6 +486,17 @@ fn build_13(udir: &Path, tier: Tier, sc: &uni::Scratch) -> Uni {
 		id += 1;
 		txs.push(UTx { name: format!("cb:g{}", h), tx: cb_spend(&kc, 60 + h, v, &[(400 + h, v - m)], id), kind: Kind::Immature });
 	}
+	// two coinbases of the main chain in one transaction, one or two blocks apart (inputs are sorted by commitment,
+	// not by age: over the pairs both orders of the younger and the older one occur)
+	for h in 1..=main_len {
+		for d in [2u32] {
+			if h + d <= main_len {
+				let val = |x: u32| if x == 3 { REWARD + m } else { REWARD };
+				id += 1;
+				txs.push(UTx { name: format!("cb:m{}+m{}", h, h + d), tx: uni::spend_coinbases(&kc, &[(h, val(h)), (h + d, val(h + d))], &[(700 + h * 4 + d, val(h) + val(h + d) - m)], id), kind: Kind::Immature });
+			}
+		}
+	}
 	for l in 3..=(main_len as u64 + 2) {
 		id += 1;
 		txs.push(UTx {
